@@ -28,7 +28,8 @@ Explained(e) ==
                        ELSE e.panic \/ e.ri = 0           \* off the three diagonals: refuse, or the dense twin's zero
     [] e.op = "size" -> ~e.panic /\ e.rn = e.pre.n
     [] e.op = "diags" -> ~e.panic /\ SameSeq(e.rsub, e.pre.sub) /\ SameSeq(e.rmain, e.pre.main) /\ SameSeq(e.rsup, e.pre.sup)
-    [] e.op \in {"with_vecs", "with_vectors"} -> GoodT(e, Given(e))
+    \* "built": the operand of a case as constructed by with_vecs / with_vectors / new + index assignment
+    [] e.op \in {"with_vecs", "with_vectors", "built"} -> GoodT(e, Given(e))
     [] e.op = "with_elements" -> GoodT(e, TWithElements(e.lo, e.di, e.up, e.n))
     [] e.op = "new" -> GoodT(e, TNew(e.n))
     [] e.op = "clone" -> GoodRT(e, e.pre)
